@@ -23,7 +23,9 @@ type verifSide struct {
 	idx       bool
 	idxUnique bool
 	idxDesc   bool
-	idxPred   int // index attributes (group 5): 0 none, 1 b > 0, 2 b > 1
+	idxX      int  // expression part (group 6): 0 none, 1 (b + 1), 2 (b + 2)
+	idxXDesc  bool // its direction
+	idxPred   int  // index attributes (group 5): 0 none, 1 b > 0, 2 b > 1
 	pk        bool
 	fk        bool
 	fkDelete  int // 0 "", 1 NO ACTION, 2 CASCADE, 3 RESTRICT, 4 SET NULL
@@ -48,6 +50,16 @@ func verifSideOf(tag string, group int) verifSide {
 		s.chk = verifChoice(tag+"_chk", 2) == 1
 		s.chkExpr = "x"
 		s.strict = verifChoice(tag+"_strict", 2) == 1
+		return s
+	}
+	if group == 6 {
+		// expression parts: a column part and an optional expression part, each with its direction
+		s.idx = true
+		s.idxDesc = verifBool(tag + "_idx_desc")
+		s.idxX = verifChoice(tag+"_idx_x", 3)
+		if s.idxX != 0 {
+			s.idxXDesc = verifBool(tag + "_idx_xdesc")
+		}
 		return s
 	}
 	if group == 5 {
@@ -141,6 +153,9 @@ func (s verifSide) table(sch *schema.Schema, ref *schema.Table, perm bool) *sche
 	if s.idx {
 		i := schema.NewIndex("i").SetUnique(s.idxUnique)
 		i.AddParts(&schema.IndexPart{C: b, Desc: s.idxDesc})
+		if s.idxX != 0 {
+			i.AddParts(&schema.IndexPart{X: &schema.RawExpr{X: []string{"", "(b + 1)", "(b + 2)"}[s.idxX]}, Desc: s.idxXDesc})
+		}
 		if s.idxPred != 0 {
 			i.AddAttrs(&IndexPredicate{P: []string{"", "b > 0", "b > 1"}[s.idxPred]})
 		}
@@ -208,6 +223,9 @@ func verifExpected(f, t verifSide) []verifWant {
 			k |= schema.ChangeUnique
 		}
 		if f.idxDesc != t.idxDesc {
+			k |= schema.ChangeParts
+		}
+		if f.idxX != t.idxX || f.idxX != 0 && f.idxXDesc != t.idxXDesc {
 			k |= schema.ChangeParts
 		}
 		if f.idxPred != t.idxPred {
@@ -375,4 +393,5 @@ func VerifHarness_C02_sqlite_idx()     { verifC02(1, false) }
 func VerifHarness_C02_sqlite_rest()    { verifC02(2, false) }
 func VerifHarness_C02_sqlite_pairs()   { verifC02(3, false) }
 func VerifHarness_C02_sqlite_idxattr() { verifC02(5, false) }
+func VerifHarness_C02_sqlite_idxexpr() { verifC02(6, false) }
 func VerifHarness_C02_sqlite_skip()    { verifC02(4, true) }
